@@ -10,8 +10,8 @@ package main
 
 import (
 	"container/list"
-	"encoding/hex"
 	"context"
+	"encoding/hex"
 	"errors"
 	"fmt"
 	"reflect"
@@ -39,15 +39,15 @@ type tcEnv struct {
 	desc string
 }
 
-func (e *tcEnv) Find(Symbol) EnvType                { return nil }
-func (e *tcEnv) Set(_ Symbol, v MalType) MalType    { return v }
-func (e *tcEnv) Get(Symbol) (MalType, error)        { return nil, errors.New("stub env") }
-func (e *tcEnv) Remove(Symbol) error                { return nil }
-func (e *tcEnv) RemoveNT(Symbol) error              { return nil }
-func (e *tcEnv) Symbols([][]rune, string) [][]rune  { return nil }
-func (e *tcEnv) FindNT(Symbol) EnvType              { return nil }
-func (e *tcEnv) SetNT(_ Symbol, v MalType) MalType  { return v }
-func (e *tcEnv) GetNT(Symbol) (MalType, error)      { return nil, errors.New("stub env") }
+func (e *tcEnv) Find(Symbol) EnvType               { return nil }
+func (e *tcEnv) Set(_ Symbol, v MalType) MalType   { return v }
+func (e *tcEnv) Get(Symbol) (MalType, error)       { return nil, errors.New("stub env") }
+func (e *tcEnv) Remove(Symbol) error               { return nil }
+func (e *tcEnv) RemoveNT(Symbol) error             { return nil }
+func (e *tcEnv) Symbols([][]rune, string) [][]rune { return nil }
+func (e *tcEnv) FindNT(Symbol) EnvType             { return nil }
+func (e *tcEnv) SetNT(_ Symbol, v MalType) MalType { return v }
+func (e *tcEnv) GetNT(Symbol) (MalType, error)     { return nil, errors.New("stub env") }
 func (e *tcEnv) Update(Symbol, func(MalType) (MalType, error)) (MalType, error) {
 	return nil, errors.New("stub env")
 }
@@ -1021,7 +1021,7 @@ func (g tcGen) seq(items []string) string {
 func (g tcGen) one() string {
 	r := g.r
 	bend := r.chance(1, 6)
-	switch r.intn(20) {
+	switch r.intn(25) {
 	case 0, 1, 2, 3: // NewHashMap: key/value pairs, duplicates frequent (the later one wins)
 		items := []string{}
 		for i, n := 0, r.intn(5); i < n; i++ {
@@ -1122,8 +1122,11 @@ func (g tcGen) one() string {
 			return "newKeyword " + g.val(0)
 		}
 		return "newKeyword " + g.str()
-	default:
+	default: // the predicates: scalars (strings and keywords above all) as often as structured values
 		v := g.val(0)
+		if r.chance(1, 2) {
+			v = g.scalar()
+		}
 		if r.chance(1, 3) {
 			return "q " + r.pick(tcQTypes) + " " + v
 		}
